@@ -88,6 +88,24 @@ impl Sys {
         json!({"asset": asset, "sh": sh, "supply": small(vc.total_supply()), "sal": sal, "aal": aal})
     }
 
+    /// read-only getters of the vault trait, asked after the judged call: total_assets, the two conversions for 1 and
+    /// for `px`, max_withdraw / max_redeem of every account
+    fn probes(&self, px: i128) -> Value {
+        let e = &self.e;
+        no_auth(e);
+        let vc = vault::ExampleContractClient::new(e, &self.v);
+        let (mut maxw, mut maxr) = (JMap::new(), JMap::new());
+        for x in &self.accts {
+            let xa = self.names.get(x);
+            maxw.insert(x.clone(), small(vc.max_withdraw(&xa)));
+            maxr.insert(x.clone(), small(vc.max_redeem(&xa)));
+        }
+        json!({"ta": small(vc.total_assets()), "px": small(px),
+               "cs1": small(vc.convert_to_shares(&1)), "csx": small(vc.convert_to_shares(&px)),
+               "ca1": small(vc.convert_to_assets(&1)), "cax": small(vc.convert_to_assets(&px)),
+               "maxw": maxw, "maxr": maxr})
+    }
+
     fn share_events(&self) -> Value {
         let conv = |v: i128| small(v);
         let mut out = Vec::new();
@@ -198,13 +216,14 @@ impl Sys {
             k => panic!("op {k}"),
         };
         let evs = self.share_events();
-        json!({"op": op, "res": r.0, "err": r.1, "pv": pv, "ret": ret, "obs": self.obs(), "evs": evs})
+        let px = { let x = n(op, "x") as i128; if x > 0 { x } else { 3 } };
+        json!({"op": op, "res": r.0, "err": r.1, "pv": pv, "ret": ret, "obs": self.obs(), "q": self.probes(px), "evs": evs})
     }
 
     fn reset_event(&self) -> Value {
         json!({"op": {"op": "reset", "off": self.off, "fund": self.fund, "x": 0, "recv": "none", "own": "none",
                       "oper": "none", "auth": [], "nosub": false},
-               "res": "ok", "err": 0, "pv": BAD, "ret": BAD, "obs": self.obs(), "evs": []})
+               "res": "ok", "err": 0, "pv": BAD, "ret": BAD, "obs": self.obs(), "q": self.probes(3), "evs": []})
     }
 }
 
